@@ -82,6 +82,14 @@ def field_corner(row, w, entropy):
         for j, p_ in enumerate(reversed(row.fields['m'])):
             w = (w & ~(1 << p_)) | (((v >> j) & 1) << p_)
         return w
+    # immediate-shifted register operand: every (type, amount) special case - LSL #0, LSR/ASR #32 (imm5 = 0), RRX, ROR #1, amount 31 - far more
+    # often than 1 in 128 words
+    sh = [k for k in ('t', 'y') if k in row.fields and len(row.fields[k]) == 2]
+    if sh and 'i' in row.fields and len(row.fields['i']) == 5 and rng.random() < 0.3:
+        for k, v in ((sh[0], rng.randrange(4)), ('i', rng.choice((0, 0, 0, 1, 31, 16)))):
+            for j, p_ in enumerate(reversed(row.fields[k])):
+                w = (w & ~(1 << p_)) | (((v >> j) & 1) << p_)
+        return w
     if rng.random() >= 0.3:
         return w
     cands = [k for k in sorted(row.fields) if k not in REGFIELDS and k not in 'cr' and len(row.fields[k]) >= 2]
@@ -111,6 +119,8 @@ def sig(diffs):
                 cats.add('it')
             if x & 0x010003FF:
                 cats.add('cpsr-ctl')
+        elif k.startswith('bystander:'):
+            cats.add('another-instance-changed')
         elif k == 'R.PC':
             cats.add('pc')
         elif k.startswith('R.'):
@@ -285,7 +295,15 @@ def shard_repeat(plan_ref, seed, examples):
             mid = [e1.enc_thumb(0x4280)]                                    # CMP r0,r0  (Z=1, C=1)
             if rng.random() < 0.7:
                 mid.append(e1.enc_thumb(0xBF08 if rng.random() < 0.7 else 0xBF18))      # IT EQ (passes) / IT NE (fails): second X inside an IT block
-        code = x + b''.join(mid) + x + (b'\x00\xbf' * 4 if thumb else e1.enc_arm(0xE1A00000) * 2)
+        loop = rng.random() < 0.4
+        if loop:
+            # the second execution happens at the SAME address (a loop): X ; flag setter ; B back to X
+            mid = mid[:1]
+            back = -(len(x) + len(mid[0]) + (4 if thumb else 8))
+            mid = mid + [e1.enc_thumb(0xE000 | ((back >> 1) & 0x7FF)) if thumb else e1.enc_arm(0xEA000000 | ((back >> 2) & 0xFFFFFF))]
+            code = x + b''.join(mid) + (b'\x00\xbf' * 4 if thumb else e1.enc_arm(0xE1A00000) * 2)
+        else:
+            code = x + b''.join(mid) + x + (b'\x00\xbf' * 4 if thumb else e1.enc_arm(0xE1A00000) * 2)
         for _ in range(3):
             kw = plan.case_kw(rng, row)
             kw.pop('it', None)
@@ -295,7 +313,7 @@ def shard_repeat(plan_ref, seed, examples):
                 plan.tweak_case(rng, row, w, case)
             res = diff.run(case)
             reached = res.status not in ('unpred', 'skip') and res.step == 1 + len(mid) and res.row == name
-            acc.case(bool(reached), ('rep', w, case['state']['cpsr'], len(mid), cfgname), cls='repeat:' + ('second-execution-compared' if reached else 'ended-early'),
+            acc.case(bool(reached), ('rep', w, case['state']['cpsr'], len(mid), cfgname), cls='repeat:' + ('loop:' if loop else '') + ('second-execution-compared' if reached else 'ended-early'),
                      sample=lambda: {'row': name, 'word': '%#x' % w, 'code': code.hex(), 'steps': 2 + len(mid)})
             if res.status in ('unpred', 'skip'):
                 acc.excluded += 1
@@ -406,10 +424,12 @@ def minimise(plan, case, bucket):
     return cur
 
 
-def run_plan(ctx, plan_ref, plan, shards=32, quick=120, thorough=2400, witnesses=True):
+def run_plan(ctx, plan_ref, plan, shards=32, quick=120, thorough=2400, witnesses=True, repeat=True):
     tasks = [(shard, (plan_ref, ctx.shard_seed(i), ctx.n(quick, thorough))) for i in range(shards)]
     if witnesses:
         tasks += witness_tasks(ctx, plan_ref)
+    if repeat:
+        tasks += [(shard_repeat, (plan_ref, ctx.shard_seed(900 + i), ctx.n(60, 1200))) for i in range(8)]
     ctx.pmap(_dispatch, tasks)
     # minimise the first case of every violation bucket
     for b, v in list(ctx.acc.viol.items()):
